@@ -313,6 +313,77 @@ package data
 //@   assert(1 <= size && size <= 8 && len(data) < size ==> rem == nil && len(i) < size)
 //@ }
 
+// ---------------------------------------------------------------- Mapping
+
+//@ import "strings"
+
+// Classification of the errors ReadMapping reports: the only one that embedding
+// parsers tolerate is the "more input follows the mapping" warning.
+//@ spec func IsBeyondWarning(e error) bool { return e != nil && strings.Contains(e.Error(), "data exists beyond length of mapping") }
+
+// errs is acceptable to the embedding parsers: nothing, or just that warning.
+//@ spec func MapClean(errs []error) bool { return len(errs) == 0 || (len(errs) == 1 && IsBeyondWarning(errs[0])) }
+
+//@ spec func MapSize(bytes []byte) int { return u16(bytes[0:2]) }
+
+// Data() is a function of the mapping's value (its pairs).
+//@ contract (mapping *Mapping) Data() (b []byte)
+//@   pure
+//@   ensures fresh(b)
+//@   ensures @C11 mapping == nil || mapping.size == nil ==> b == nil
+//@   ensures @C11 mapping != nil && mapping.size != nil ==> len(b) >= 2 && (len(b)-2 <= 65535 ==> u16(b[0:2]) == len(b)-2)
+//@   modifies nothing
+
+//@ contract ReadMapping(bytes []byte) (mapping Mapping, remainder []byte, err []error)
+//@   ensures @C03 len(bytes) < 2 ==> len(err) == 1 && !IsBeyondWarning(err[0]) && remainder == nil && mapping.size == nil && mapping.vals == nil
+//@   ensures @C03 len(bytes) >= 2 ==> mapping.size != nil
+//@   ensures @C03 len(bytes) >= 2 && MapSize(bytes) == 0 ==> len(err) == 0 && same(remainder, bytes[2:]) && mapping.vals != nil
+//@   ensures @C03 len(bytes) >= 2 && MapSize(bytes) > len(bytes)-2 ==> len(err) >= 1 && !IsBeyondWarning(err[0]) && remainder == nil
+//@   ensures @C03 len(bytes) >= 2 && 0 < MapSize(bytes) && MapSize(bytes) <= len(bytes)-2 ==> same(remainder, bytes[2+MapSize(bytes):]) && mapping.vals != nil
+//@   ensures @C03 len(bytes) >= 2 && 0 < MapSize(bytes) && MapSize(bytes) == len(bytes)-2 ==> (len(err) >= 1 ==> !IsBeyondWarning(err[0]))
+//@   ensures @C03 len(bytes) >= 2 && 0 < MapSize(bytes) && MapSize(bytes) < len(bytes)-2 ==> len(err) >= 1 && IsBeyondWarning(err[0])
+//@   ensures @C03 len(err) >= 2 ==> !IsBeyondWarning(err[1])
+//@   ensures @C03 len(err) >= 3 ==> !IsBeyondWarning(err[2])
+//@   ensures @C01 @C11 [by C01_ReadMapping] len(bytes) >= 2 && MapClean(err) ==> seqeq((&mapping).Data(), bytes[:2+MapSize(bytes)])
+//@   loop parseKeyValuePairs 0: bounded 2
+//@   loop serializeMappingPairs 0: concrete 16
+//@   modifies nothing
+
+//@ option C01_ReadMapping nocontract ReadMapping Mapping.Data
+//@ lemma C01_ReadMapping(bytes []byte) {
+//@   m, rem, errs := ReadMapping(bytes)
+//@   if len(bytes) >= 2 && MapClean(errs) {
+//@     b := (&m).Data()
+//@     assert(seqeq(b, bytes[:len(bytes)-len(rem)]))
+//@   }
+//@ }
+
+// Length of the well-formed pair that starts at body[at] (klen k '=' vlen v ';'), or -1.
+//@ spec func pairLen(body []byte, at int) int {
+//@   if at < 0 || at+1 > len(body) { return -1 }
+//@   k := int(body[at])
+//@   if at+1+k+2 > len(body) || body[at+1+k] != 0x3d { return -1 }
+//@   v := int(body[at+2+k])
+//@   if at+3+k+v+1 > len(body) || body[at+3+k+v] != 0x3b { return -1 }
+//@   return 4 + k + v
+//@ }
+
+// The same statement restricted to encodings that consist of one or two
+// well-formed pairs of at least six bytes each (inputs on which the known
+// threshold defect cannot manifest): every other deviation is still caught here.
+//@ option C01_ReadMapping_WellFormed nocontract ReadMapping Mapping.Data
+//@ lemma C01_ReadMapping_WellFormed(bytes []byte) {
+//@   assume(len(bytes) >= 2 && 0 < MapSize(bytes) && MapSize(bytes) <= len(bytes)-2)
+//@   body := bytes[2 : 2+MapSize(bytes)]
+//@   p1 := pairLen(body, 0)
+//@   assume(p1 >= 6 && (p1 == len(body) || (pairLen(body, p1) >= 6 && p1+pairLen(body, p1) == len(body))))
+//@   assume(p1 == len(body) || !seqeq(body[1:1+int(body[0])], body[p1+1:p1+1+int(body[p1])]))
+//@   m, rem, errs := ReadMapping(bytes)
+//@   assert(MapClean(errs))
+//@   b := (&m).Data()
+//@   assert(seqeq(b, bytes[:len(bytes)-len(rem)]))
+//@ }
+
 //@ lemma T_mustfail1(value int, size int) {
 //@   i, err := NewIntegerFromInt(value, size)
 //@   if err == nil {
